@@ -119,11 +119,32 @@ func c23KeyFault(k string) bool {
 	return false
 }
 
-var c23BodyFaults = []string{"cut", "junk", "short-read", "bad-gzip", "cut-gzip", "bad-zstd", "wrong-ctype", "not-array", "empty-body"}
+var c23BodyFaults = []string{"cut", "junk", "short-read", "bad-gzip", "cut-gzip", "bad-crc", "bad-zstd", "wrong-ctype", "not-array", "empty-body"}
 
 func genC23(t *rapid.T) c23Case {
 	c := c23Case{Queue: 1000, GateAt: -1}
-	mode := rapid.SampledFrom([]string{"plain", "plain", "plain", "gate", "gate", "burst"}).Draw(t, "mode")
+	mode := rapid.SampledFrom([]string{"plain", "plain", "plain", "gate", "gate", "burst", "late-read-failure", "late-read-failure"}).Draw(t, "mode")
+	if mode == "late-read-failure" {
+		// a request whose body read fails only after every byte of a complete value was
+		// delivered (client dies before the promised length / checksum trailer is wrong),
+		// followed by healthy requests of the same encoding on the same listener
+		enc := rapid.SampledFrom([]string{"msgpack", "msgpack", "json"}).Draw(t, "lenc")
+		lst := rapid.SampledFrom([]string{"incoming", "incoming", "peer"}).Draw(t, "llistener")
+		ev := func(label string, max int) []c23Ev {
+			n := rapid.IntRange(1, max).Draw(t, label)
+			out := make([]c23Ev, n)
+			for i := range out {
+				out[i] = c23Ev{Kind: "ok", Class: rapid.SampledFrom([]string{"none", "own", "foreign"}).Draw(t, label+"class"), N: i % 3, Root: i%2 == 0}
+			}
+			return out
+		}
+		a := c23Req{Endpoint: "batch", Listener: lst, Enc: enc, Key: "legacy", Fault: rapid.SampledFrom([]string{"short-read", "bad-crc"}).Draw(t, "lfault"), Events: ev("an", 4)}
+		c.Reqs = append(c.Reqs, a)
+		for k := rapid.IntRange(1, 3).Draw(t, "followers"); k > 0; k-- {
+			c.Reqs = append(c.Reqs, c23Req{Endpoint: "batch", Listener: lst, Enc: enc, Key: "legacy", Events: ev("bn", 3)})
+		}
+		return c
+	}
 	if mode != "plain" {
 		c.Queue = rapid.IntRange(1, 3).Draw(t, "queue")
 	}
@@ -378,6 +399,17 @@ func c23HTTPRequest(r c23Req, ri int, host string) (raw []byte, halfClose bool) 
 			hdr = append(hdr, [2]string{"Content-Encoding", "gzip"})
 		}
 		body = body[:len(body)*2/3]
+	case "bad-crc":
+		// intact compressed data, wrong checksum trailer: the reader hands out every byte and then reports the error
+		if r.Comp == "" {
+			body = rtGzip(body)
+			hdr = append(hdr, [2]string{"Content-Encoding", "gzip"})
+		}
+		if r.Comp == "zstd" {
+			body[len(body)-1] ^= 0x5a
+		} else {
+			body[len(body)-6] ^= 0x5a // inside the CRC32 of the gzip trailer
+		}
 	case "bad-zstd":
 		if r.Comp == "" {
 			hdr = append(hdr, [2]string{"Content-Encoding", "zstd"})
@@ -797,6 +829,9 @@ func execC23(c c23Case) vkit.Result {
 		}
 		res.Class("endpoint=" + r.Endpoint)
 		res.Class("fault=" + fault)
+		if ri > 0 && r.Fault == "" && (c.Reqs[ri-1].Fault == "short-read" || c.Reqs[ri-1].Fault == "bad-crc") && c.Reqs[ri-1].Enc == r.Enc {
+			res.Class("healthy-" + r.Enc + "-request-right-after-late-read-failure")
+		}
 		if isErr {
 			res.Class("answer=error")
 		} else {
@@ -971,7 +1006,7 @@ func execC23(c c23Case) vkit.Result {
 func TestC23(t *testing.T) {
 	vkit.Run(t, vkit.Spec[c23Case]{
 		ID:   "C23",
-		Rule: "fresh node per case: incoming+peer Router (+gRPC when needed) in front of the real InMemCollector (1 worker, keep-all sampler, 4 ms trace timeout) with recording transmissions and a fake Honeycomb /1/auth; 1-5 requests per case on /1/events, /1/batch, /v1/traces, /v1/logs (proto and JSON) and both gRPC services, with injected faults: environment lookup answering 401/500/garbage/hang-up, missing key, truncated/garbled/empty bodies, short reads, bad and truncated gzip, bad zstd, wrong content type, batch that is not an array, invalid events inside a batch, queue admission (collector worker stalled deterministically behind a blocked late-span send, queue size 1-3; or a 40-span burst into a tiny queue). Every event carries a unique id; after the last answer two sentinel spans flush the single worker, then: one response per request (one JSON document), error status => none of its events in any sink, success => every valid event in a sink exactly once or individually reported, batch entries 202 <=> forwarded once, 429/400 => never forwarded, 429 only for queue-bound spans when the queue can be full (exact positions under the stall), 400 exactly for invalid events. Non-trivial: a request with a fault (or stalled queue, or an invalid event) that also carries at least one valid event.",
+		Rule: "fresh node per case: incoming+peer Router (+gRPC when needed) in front of the real InMemCollector (1 worker, keep-all sampler, 4 ms trace timeout) with recording transmissions and a fake Honeycomb /1/auth; 1-5 requests per case on /1/events, /1/batch, /v1/traces, /v1/logs (proto and JSON) and both gRPC services, with injected faults: environment lookup answering 401/500/garbage/hang-up, missing key, truncated/garbled/empty bodies, short reads, bad and truncated gzip, bad zstd, intact gzip/zstd data with a wrong checksum trailer, a late-failing body read followed by 1-3 healthy batches of the same encoding, wrong content type, batch that is not an array, invalid events inside a batch, queue admission (collector worker stalled deterministically behind a blocked late-span send, queue size 1-3; or a 40-span burst into a tiny queue). Every event carries a unique id; after the last answer two sentinel spans flush the single worker, then: one response per request (one JSON document), error status => none of its events in any sink, success => every valid event in a sink exactly once or individually reported, batch entries 202 <=> forwarded once, 429/400 => never forwarded, 429 only for queue-bound spans when the queue can be full (exact positions under the stall), 400 exactly for invalid events. Non-trivial: a request with a fault (or stalled queue, or an invalid event) that also carries at least one valid event.",
 		Assumptions: []string{
 			"observation point is the enqueue call of the upstream/peer transmissions and the real collector's output (DirectTransmission itself is C26's subject)",
 			"sentinel argument: one worker, FIFO queues, expiry in SendBy order, single sender goroutine - a sentinel sent after all answers leaves the collector after everything accepted before it; a missing sentinel makes the case inconclusive",
